@@ -331,6 +331,7 @@ stun_message_append (StunMessage *msg, StunAttribute type, size_t length)
 {
   uint8_t *a;
   uint16_t mlen = stun_message_length (msg);
+  size_t padding = 0;
 
   /* In MS-TURN, IDs of REALM and NONCE STUN attributes are swapped. */
   if (msg->agent && msg->agent->compatibility == STUN_COMPATIBILITY_OC2007)
@@ -341,7 +342,13 @@ stun_message_append (StunMessage *msg, StunAttribute type, size_t length)
       type = STUN_ATTRIBUTE_NONCE;
   }
 
-  if ((size_t)mlen + STUN_ATTRIBUTE_HEADER_LENGTH + length > msg->buffer_len)
+  /* Aligned attributes are followed by padding, which must fit too. */
+  if (!(msg->agent &&
+      (msg->agent->usage_flags & STUN_AGENT_USAGE_NO_ALIGNED_ATTRIBUTES)))
+    padding = stun_padding (length);
+
+  if ((size_t)mlen + STUN_ATTRIBUTE_HEADER_LENGTH + length + padding >
+      msg->buffer_len)
     return NULL;
 
 
